@@ -458,7 +458,30 @@ func genPipePlan(seed int64, o PipeGenOpts) *PipePlan {
 				continue
 			}
 			raw := append([]byte(nil), enc...)
-			if r.Intn(2) == 0 {
+			if src.SF != nil && len(src.SF.Samples) > 0 && r.Intn(2) == 0 {
+				// a well-formed sFlow datagram cut before the type/length word of its
+				// last announced sample is complete: some read (not a skip) meets the
+				// end, the decode returns an error whatever the filter, and nothing
+				// may be counted as decoded or published, even though samples in
+				// front of the cut decoded cleanly
+				head := *src.SF
+				head.Samples = head.Samples[:len(head.Samples)-1]
+				lim := len(head.Encode()) + 8
+				if lim > len(raw) {
+					lim = len(raw)
+				}
+				lo := 0
+				if len(head.Samples) > 0 && r.Intn(4) != 0 {
+					// most cuts fall behind the first sample
+					one := *src.SF
+					one.Samples = one.Samples[:1]
+					lo = len(one.Encode())
+				}
+				if lo >= lim {
+					lo = 0
+				}
+				raw = raw[:lo+r.Intn(lim-lo)]
+			} else if r.Intn(2) == 0 {
 				// another version number
 				if src.SF != nil {
 					raw[3] = byte([]int{0, 1, 4, 6, 9, 10}[r.Intn(6)])
